@@ -1,4 +1,6 @@
+import IpcHub.Drv.DepackProto
 namespace IpcHub.Drv.C06
-/-- placeholder: no model built for this property yet -/
-def handle (_ : List String) : String := "bad-op"
+/-- C06 driver: `run …` (specification packetiser → packets → model frames) and `judge …`
+    (the C06 predicate on frames observed on the implementation); see Drv/DepackProto.lean -/
+def handle (ts : List String) : String := IpcHub.Drv.DepackProto.handle ts
 end IpcHub.Drv.C06
